@@ -282,6 +282,11 @@ pub fn gen(r: &mut Rng, cases: usize, size: usize, extra: &[String], out: &mut O
                 }
             }
             "ng" => {
+                if case == 0 {
+                    // many-model framework (1024 stable models): the iterator entry point and both
+                    // channel variants must deliver all of them and come back
+                    out.line("ngbig 10");
+                }
                 for p in ["native", "hybrid"] {
                     out.line(&format!("build {p}"));
                 }
@@ -568,6 +573,41 @@ impl Exec {
                 true
             }
             "adopt" | "presented" | "ordercheck" | "clirun" => true,
+            "ngbig" if ws.len() == 2 => {
+                out.line(l);
+                out.flush();
+                let k: usize = ws[1].parse().unwrap_or(1);
+                let r = catch_unwind(AssertUnwindSafe(|| {
+                    let mut txt = String::new();
+                    for i in 0..k {
+                        txt += &format!("s(a{i}).s(b{i}).");
+                    }
+                    for i in 0..k {
+                        txt += &format!("ac(a{i},neg(b{i})).ac(b{i},neg(a{i})).");
+                    }
+                    let src: &'static str = Box::leak(txt.into_boxed_str());
+                    let parser: &'static AdfParser<'static> = Box::leak(Box::new(AdfParser::default()));
+                    parser.parse()(src).ok()?;
+                    let mut adf = Adf::from_parser(parser);
+                    let it: Vec<Vec<Term>> = adf.stable_nogood(Heuristic::Simple).collect();
+                    let mut d = it.clone();
+                    d.sort();
+                    d.dedup();
+                    let (s1, r1) = crossbeam_channel::unbounded();
+                    adf.stable_nogood_channel(Heuristic::MinModMinPathsMaxVarImp, s1);
+                    let ch = r1.iter().count();
+                    let (s2, r2) = crossbeam_channel::unbounded();
+                    adf.two_val_nogood_channel(Heuristic::MinModMaxVarImpMinPaths, s2);
+                    let tv = r2.iter().count();
+                    Some(format!("count={} distinct={} channel={ch} twoval={tv}", it.len(), d.len()))
+                }));
+                match r {
+                    Ok(Some(x)) => out.line(&format!("~ {x}")),
+                    Ok(None) => out.line("~ bad-request"),
+                    Err(_) => out.line("~ panic"),
+                }
+                true
+            }
             "cli" if ws.len() == 8 => {
                 out.line(l);
                 out.flush();
